@@ -120,7 +120,7 @@ def run(ctx):
     # ---------------- (b) exported data
     t0 = time.time()
     sq = lambda x: x * x
-    for ci, (mesh, spc, dtype_, cplx) in enumerate([("T5", ("P", 1, {"include_boundary_dofs": True}), "node", True), ("T4", ("DP", 0, {}), "element", True), ("T5", ("P", 1, {"include_boundary_dofs": True}), "element", False), ("T4", ("DP", 0, {}), "node", False)]):
+    for ci, (mesh, spc, dtype_, cplx) in enumerate([("T5", ("P", 1, {"include_boundary_dofs": True}), "node", True), ("T4", ("DP", 0, {}), "element", True), ("T5", ("P", 1, {"include_boundary_dofs": True}), "element", False), ("T4", ("DP", 0, {}), "node", False), ("T4", ("RWG", 0, {}), "element", True), ("T4", ("RWG", 0, {}), "node", False)]):
         ABS.reset()
         v, e, dm = W.mesh(mesh)
         g = b.Grid(np.asarray(v, dtype=float), np.asarray(e), np.asarray(dm, dtype="uint32"))
@@ -139,38 +139,47 @@ def run(ctx):
                 continue
             points, cells, pd, cd = ch.m
             n = base.shape[1]
+            dim = base.shape[0]
             claims = []
             store = pd if dtype_ == "node" else cd
             for k in range(n):
-                val = SC.lift(base[0, k])
-                mag2 = val.re * val.re + val.im * val.im
+                vals = [SC.lift(base[dd, k]) for dd in range(dim)]
+                mag2 = ZERO
+                for val in vals:
+                    mag2 = mag2 + val.re * val.re + val.im * val.im
                 if tname is None:
-                    exp = val
+                    exp = vals
                 elif tname == "real":
-                    exp = SC(val.re, ZERO)
+                    exp = [SC(val.re, ZERO) for val in vals]
                 elif tname == "imag":
-                    exp = SC(val.im, ZERO)
+                    exp = [SC(val.im, ZERO) for val in vals]
                 elif tname == "abs_squared":
-                    exp = SC(mag2, ZERO)
+                    exp = [SC(mag2, ZERO)]
                 elif tname == "abs":
-                    exp = SC(mag2.sqrt(), ZERO)
+                    exp = [SC(mag2.sqrt_of_sum_of_squares(), ZERO)]
                 elif tname == "log_abs":
-                    exp = SC(mag2.sqrt()._fn("log"), ZERO)
+                    exp = [SC(mag2.sqrt_of_sum_of_squares()._fn("log"), ZERO)]
                 else:
-                    exp = val * 3
+                    exp = [val * 3 for val in vals]
                 is_c = cplx and tname in (None, "callable")
+                m = len(exp)
                 try:
                     if is_c:
                         gr, gi = np.asarray(store["real"], dtype=object), np.asarray(store["imag"], dtype=object)
-                        if gr.size != n or gi.size != n:
+                        if gr.size != n * m or gi.size != n * m:
                             raise IndexError
-                        got = SC(SR.lift(gr.reshape(-1)[k]), SR.lift(gi.reshape(-1)[k]))
+                        gr, gi = gr.reshape(n, m), gi.reshape(n, m)
+                        got = [SC(SR.lift(gr[k, j]), SR.lift(gi[k, j])) for j in range(m)]
                     else:
-                        got = SC.lift(np.asarray(store["data"], dtype=object).reshape(-1)[k])
+                        gd_ = np.asarray(store["data"], dtype=object)
+                        if gd_.size != n * m:
+                            raise IndexError
+                        got = [SC.lift(gd_.reshape(n, m)[k, j]) for j in range(m)]
                 except (KeyError, TypeError, IndexError) as ex_:
                     claims.append(z3.BoolVal(False))
                     continue
-                claims.append(z3.And(cterm(got)[0] == cterm(exp)[0], cterm(got)[1] == cterm(exp)[1]))
+                for gv, ev in zip(got, exp):
+                    claims.append(z3.And(cterm(gv)[0] == cterm(ev)[0], cterm(gv)[1] == cterm(ev)[1]))
             ctx.prove("b/%s/%s/%s/%s" % (spc[0], dtype_, "complex" if cplx else "real", tname), z3.And(*claims), [], family="data", params=params, abs_cons="cone", group="b-data-" + dtype_)
         # domain indices written for non-gmsh formats
         _, _, _, cd = ch.m
@@ -221,12 +230,15 @@ def concrete(family, params):
             dp0 = b.function_space(g, "DP", 0)
             rng = np.random.RandomState(0)
             worst = 0.0
-            for sp, dt in ((p1, "node"), (dp0, "element"), (p1, "element")):
+            rwg = b.function_space(g, "RWG", 0)
+            worst_case = None
+            for sp, dt in ((p1, "node"), (dp0, "element"), (p1, "element"), (rwg, "element"), (rwg, "node")):
                 for cplx in (False, True):
                     c = rng.rand(sp.global_dof_count) + (1j * rng.rand(sp.global_dof_count) if cplx else 0)
                     f = b.GridFunction(sp, coefficients=c)
                     base = f.evaluate_on_vertices() if dt == "node" else f.evaluate_on_element_centers()
-                    for tname, fn_ in ((None, lambda a: a), ("real", np.real), ("imag", np.imag), ("abs", lambda a: np.abs(a)), ("abs_squared", lambda a: np.abs(a) ** 2)):
+                    nrm2 = lambda a: np.sum(np.abs(a) ** 2, axis=0, keepdims=True)
+                    for tname, fn_ in ((None, lambda a: a), ("real", np.real), ("imag", np.imag), ("abs", lambda a: np.sqrt(nrm2(a))), ("abs_squared", nrm2), ("log_abs", lambda a: np.log(np.sqrt(nrm2(a))))):
                         path = os.path.join(tmp, "f.vtu")
                         try:
                             b.export(path, grid_function=f, data_type=dt, transformation=tname)
@@ -234,13 +246,16 @@ def concrete(family, params):
                             return {"gap": 1.0, "raised": "%s: %s" % (type(ex_).__name__, str(ex_)[:200]), "case": [dt, cplx, tname], "key": "data/%s/%s/raises" % (dt, "complex" if cplx else "real")}
                         m = meshio.read(path)
                         store = m.point_data if dt == "node" else {k: val[0] for k, val in m.cell_data.items()}
-                        exp = fn_(base)[0]
+                        exp = np.asarray(fn_(base)).T
                         if np.iscomplexobj(exp):
-                            got = np.asarray(store["real"]).reshape(-1) + 1j * np.asarray(store["imag"]).reshape(-1)
+                            got = np.asarray(store["real"]).reshape(exp.shape) + 1j * np.asarray(store["imag"]).reshape(exp.shape)
                         else:
-                            got = np.asarray(store["data"]).reshape(-1)
-                        worst = max(worst, float(np.max(np.abs(got - exp))))
-            return {"gap": worst if worst > 1e-10 else 0.0, "key": "data"}
+                            got = np.asarray(store["data"]).reshape(exp.shape)
+                        fin = np.isfinite(exp)
+                        gap_ = float(np.max(np.abs(got[fin] - exp[fin]))) if fin.any() else 0.0
+                        if gap_ > worst:
+                            worst, worst_case = gap_, [sp.identifier, dt, "complex" if cplx else "real", tname]
+            return {"gap": worst if worst > 1e-10 else 0.0, "worst_case": worst_case, "key": "data/%s" % ("/".join(str(x) for x in worst_case) if worst > 1e-10 else "")}
     finally:
         import shutil
 
